@@ -7,7 +7,7 @@ cd $W && git reset -q --hard && git checkout -q --detach $(git -C /repo rev-pars
 export CARGO_NET_OFFLINE=true
 cp $S/demo.rs tests/seed_demo.rs
 cargo test --offline --test seed_demo > /tmp/reconf_without.log 2>&1; a=$?
-git apply $S/patch.diff || { echo "patch does not apply on HEAD"; exit 3; }
+git apply --3way $S/patch.diff 2>/dev/null || git apply $S/patch.diff || { echo "patch does not apply on HEAD"; exit 3; }
 cargo test --offline --test seed_demo > /tmp/reconf_with.log 2>&1; b=$?
 git reset -q --hard; rm -f tests/seed_demo.rs
 echo "$1: demo_without_rc=$a demo_with_rc=$b  (want 0 / non-zero)"
